@@ -543,6 +543,20 @@ impl NostrGroupDataExtension {
     }
 }
 
+#[cfg(feature = "verif-hooks")]
+impl NostrGroupDataExtension {
+    /// Verification hook: parse raw extension bytes exactly as the group-context path does.
+    pub fn verif_from_bytes(bytes: &[u8]) -> Result<Self, Error> {
+        Self::deserialize_bytes(bytes)
+    }
+
+    /// Verification hook: the bytes written into the MLS group context for this value.
+    pub fn verif_to_bytes(&self) -> Result<Vec<u8>, Error> {
+        use tls_codec::Serialize as _;
+        Ok(self.as_raw().tls_serialize_detached()?)
+    }
+}
+
 #[cfg(test)]
 mod tests {
     use mdk_storage_traits::test_utils::crypto_utils::generate_random_bytes;
